@@ -230,6 +230,12 @@ http_req_parse_line(nng_http *conn, void *line)
 	*version = '\0';
 	version++;
 
+	// Neither the method nor the request target may be empty.
+	if ((method[0] == '\0') || (uri[0] == '\0')) {
+		nni_http_set_status(conn, NNG_HTTP_STATUS_BAD_REQUEST, NULL);
+		return (NNG_OK);
+	}
+
 	if (nni_url_canonify_uri(uri) != 0) {
 		nni_http_set_status(conn, NNG_HTTP_STATUS_BAD_REQUEST, NULL);
 		return (NNG_OK);
